@@ -10,7 +10,7 @@ are universally quantified.  Notation: `idx = unmaskedPixels m` (= `native_index
 `N = idx.length`, `P[d,a] = Spec.pMat K idx d a = K[idx d − idx a + half]`, `σ = noise` (slim).
 The modelled code is the repaired one (fixes D1, D2, D3 of DESIGN §6).
 -/
-import Proofs.NormalEqExtra
+import Proofs.NormalEqPadded
 
 open Model Model.Spec
 
@@ -307,6 +307,80 @@ theorem e_w_tilde_curvature_symmetric (ds : Dataset α) (objs : List (LinObj α)
     simp only [Mat.ofFn_c]
     exact operatedList_width ds objs
   exact a_curvature_symmetric _ _ _ _ _ i j (by rw [hc]; exact hi) (by rw [hc]; exact hj)
+
+/-! ## the code's own branch structure
+
+`Impl.dataVectorWTDispatch` / `Impl.curvatureWTDispatch` transliterate the dispatch of
+`InversionImagingWTilde.data_vector` / `.curvature_matrix` (on `has(AbstractLinearObjFuncList)` and on the
+number of mappers) and the separate passes `_data_vector_mapper`, `_data_vector_x1_mapper`,
+`_data_vector_multi_mapper`, `_data_vector_func_list_and_mapper`, `_curvature_matrix_mapper_diag`
+(= `_x1_mapper`), `_curvature_matrix_multi_mapper`, `_curvature_matrix_func_list_and_mapper`; `none` models
+the Python failing on `None` when the list has no mapper (a case the factory never sends to this class). -/
+
+/-- (e9) every branch of the dispatchers computes the general object-pair assembly (no hypothesis on the
+    dataset; the list must contain a mapper, which is when the factory selects the w-tilde inversion) -/
+theorem e_w_tilde_dispatch_is_general_assembly (ds : Dataset α) (objs : List (LinObj α))
+    (hm : objs.any LinObj.isMapper = true) (value : α) :
+    Impl.curvatureWTDispatch ds objs value = some (Impl.curvatureWT ds objs value) ∧
+    Impl.dataVectorWTDispatch ds objs = some (Impl.dataVectorWT ds objs) :=
+  ⟨curvatureWTDispatch_eq ds objs hm value, dataVectorWTDispatch_eq ds objs hm⟩
+
+/-- **(e10) the transliterated w-tilde dispatcher agrees with the mapping formalism**: same curvature
+    matrix and data vector as `InversionImagingMapping`, for every dataset and ordered object list meeting
+    the property's hypotheses. -/
+theorem e_w_tilde_dispatch_agrees (ds : Dataset α) (objs : List (LinObj α))
+    (hf : Footprint ds.mask ds.kernel)
+    (hpos : ∀ k, k < (unmaskedPixels ds.mask).length → 0 < vget ds.noise k)
+    (hb : ∀ t b, LinObj.mapper t b ∈ objs → BlocksOK t (unmaskedPixels ds.mask).length)
+    (hm : objs.any LinObj.isMapper = true) (value : α) :
+    Impl.curvatureWTDispatch ds objs value = some (Impl.curvatureMap ds objs value) ∧
+    Impl.dataVectorWTDispatch ds objs = some (Impl.dataVectorMap ds objs) := by
+  obtain ⟨h1, h2⟩ := e_formalisms_agree ds objs hf hpos hb value
+  rw [curvatureWTDispatch_eq ds objs hm value, dataVectorWTDispatch_eq ds objs hm, h1, h2]
+  exact ⟨rfl, rfl⟩
+
+/-! ## the tables as the code stores them
+
+`Impl.Padded` = `(data_to_pix_unique, data_weights, pix_lengths)` (second axis padded with `-1` / `0`),
+`Impl.PreloadFlat` = `(curvature_preload, curvature_indexes, curvature_lengths)` (flat, walked with the running
+`curvature_index`); `toRows` reads them through their length column; the `…P` functions are the consumers'
+loops over the stored forms; `…DispatchP` are the dispatchers over the stored forms (what the driver runs). -/
+
+/-- (f1) reading a stored table through its length column gives back the rows it was built from, for any
+    width and padding: the unique mappings and the flattened preload -/
+theorem f_stored_tables_read_back (width : Nat) (rows : Rows α) :
+    Impl.Padded.toRows (Impl.Padded.ofRows width rows) = rows ∧
+    Impl.PreloadFlat.toRows (Impl.PreloadFlat.ofRows rows) = rows :=
+  ⟨Padded.toRows_ofRows width rows, PreloadFlat.toRows_ofRows rows⟩
+
+/-- (f2) every consumer loop over the stored arrays (`for k in range(pix_lengths[d])`,
+    `curvature_index += 1`) equals the consumer over the rows read through the length columns — for ANY
+    stored arrays (whatever the padding holds), so theorems b, d, e apply to what the code stores -/
+theorem f_consumers_over_stored_tables (wtd : List α) (q : Impl.PreloadFlat α) (p p1 : Impl.Padded α)
+    (n n1 : Nat) (cw : Mat α) (fr : Rows α) (recon : List α) :
+    Impl.dataVectorWTildeP wtd p n = Impl.dataVectorWTilde wtd (Impl.Padded.toRows p) n ∧
+    Impl.offDiagPreloadP q p n p1 n1
+      = Impl.offDiagPreload (Impl.PreloadFlat.toRows q) (Impl.Padded.toRows p) n
+          (Impl.Padded.toRows p1) n1 ∧
+    Impl.curvatureFromPreloadP q p n
+      = Impl.curvatureFromPreload (Impl.PreloadFlat.toRows q) (Impl.Padded.toRows p) n ∧
+    Impl.offDiagMapperFuncP p n cw fr = Impl.offDiagMapperFunc (Impl.Padded.toRows p) n cw fr ∧
+    Impl.mappedViaUniqueP p recon = Impl.mappedViaUnique (Impl.Padded.toRows p) recon :=
+  ⟨dataVectorWTildeP_eq wtd p n, offDiagPreloadP_eq q p n p1 n1, curvatureFromPreloadP_eq q p n,
+    offDiagMapperFuncP_eq p n cw fr, mappedViaUniqueP_eq p recon⟩
+
+/-- **(e11) the dispatcher over the stored tables agrees with the mapping formalism** — the statement of
+    C04.e for the code path the driver executes: transliterated dispatch, padded unique mappings, flat
+    preload with running index. -/
+theorem e_w_tilde_dispatch_stored_agrees (ds : Dataset α) (objs : List (LinObj α))
+    (hf : Footprint ds.mask ds.kernel)
+    (hpos : ∀ k, k < (unmaskedPixels ds.mask).length → 0 < vget ds.noise k)
+    (hb : ∀ t b, LinObj.mapper t b ∈ objs → BlocksOK t (unmaskedPixels ds.mask).length)
+    (hm : objs.any LinObj.isMapper = true) (value : α) :
+    Impl.curvatureWTDispatchP ds objs value = some (Impl.curvatureMap ds objs value) ∧
+    Impl.dataVectorWTDispatchP ds objs = some (Impl.dataVectorMap ds objs) := by
+  rw [curvatureWTDispatchP_eq, dataVectorWTDispatchP_eq]
+  exact e_w_tilde_dispatch_agrees ds objs hf hpos hb hm value
 
 /-! ## non-vacuity
 
